@@ -309,6 +309,12 @@ impl ProbeSpec {
         p.start = p.bounds.iter().map(|(lo, _)| f64::from_bits(if *lo >= 0. { lo.to_bits() + 3 } else { lo.to_bits() - 3 })).collect();
         p
     }
+    /// Small start values of both signs in ranges that straddle zero: a rejected move crosses zero
+    /// or changes the value several-fold, so an undo by subtraction is not exact.
+    pub fn near_zero(n: usize) -> ProbeSpec {
+        let starts = [0.003, -0.002, 0.0007];
+        ProbeSpec { bounds: vec![(-1., 1.); n], start: starts[..n].to_vec(), s0: 0., memo: true, alias: false }
+    }
     pub fn raw(mut self) -> ProbeSpec {
         self.memo = false;
         self
